@@ -1,0 +1,12 @@
+//go:build verif
+
+// Contracts for package confutil, checked by /verif/govc. Comment-only: no code.
+package confutil
+
+// An entry is chosen iff no cases are configured or its tag is one of them.
+//@ func IsChosenCase
+//@ props C14 C08
+//@ pure
+//@ modifies nothing
+//@ loop 0 invariant [none-of-the-visited-cases-matches] forall(k, 0, rangeidx, chosenCases[k] != checkCase)
+//@ ensures [exactly-the-listed-tags] result == (len(chosenCases) == 0 || exists(k, 0, len(chosenCases), chosenCases[k] == checkCase))
